@@ -135,7 +135,9 @@ Set(st) == /\ step' = st.step /\ sweep' = st.sweep /\ errc' = st.errc /\ evalErr
 NewPeriod == [n |-> 0, tr |-> FALSE, last |-> "none", exit |-> "none", deco |-> "none"]
 Cur == Len(hist)
 
-Init == Set(InitState(Horizon)) /\ hist = << >>
+Init == LET s0 == InitState(Horizon)
+        IN /\ step = s0.step /\ sweep = s0.sweep /\ errc = s0.errc /\ evalErr = s0.evalErr
+           /\ iter = s0.iter /\ status = s0.status /\ len = s0.len /\ hist = << >>
 
 BeginStep == /\ BeginStepEnabled(St, Horizon)
              /\ Set(BeginStepOp(St))
